@@ -22,7 +22,7 @@ DEFS_DIR = os.path.join(ROOT, 'kani', 'lex', 'src', 'defs')
 CORPUS = {
     'B1': ('basic.rs', False), 'B2': ('basic.rs', False), 'B3': ('basic.rs', False), 'B4': ('basic.rs', False),
     'B5': ('basic.rs', False), 'B6': ('basic.rs', False), 'B7': ('basic.rs', False), 'B8': ('basic.rs', False),
-    'E1': ('basic.rs', False),
+    'E1': ('basic.rs', False), 'E3': ('basic.rs', False),
     'S1': ('skip.rs', False), 'S2': ('skip.rs', False), 'S3': ('skip.rs', False),
     'L1': ('literal.rs', False), 'I2': ('literal.rs', False),
     'P2': ('twins.rs', False), 'P2T': ('twins.rs', False), 'M1B': ('twins.rs', False), 'M2B': ('twins.rs', False),
